@@ -220,6 +220,16 @@ def corr_layered(ctx):
                 tag = [i for i, l in enumerate(li.layers) if l is lay][0] + 1
             except ValueError:
                 tag = 0
+            # "dispatches every depth to the layer that contains it": the layer returned must itself contain the depth
+            # (by its own public `contains`), and the stack contains exactly the depths that are dispatched
+            ctx.case(key=("layered-contains", tuple(bounds), z))
+            own = bool(lay.contains((0.0, 0.0, z))) if tag else None
+            whole = bool(li.contains((0.0, 0.0, z)))
+            if (tag and not own) or whole != bool(tag):
+                ctx.fail("layered-contains:%s:%r" % (bounds, z),
+                         "LayeredIce with boundaries %s at depth %r: layer_at_depth gives layer %s whose own contains() is %s; LayeredIce.contains() is %s" % (
+                             bounds, z, tag or "none (ValueError)", own, whole),
+                         {"kind": "layered_contains", "bounds": bounds, "z": z})
             try:
                 with np.errstate(all="ignore"):
                     n = float(li.index(z))
